@@ -9,7 +9,7 @@ from harness.engine.core import chunks
 SPEC = os.path.join(T.SPECS, "Elements")
 NOPREDS = {"acceptsValue": False, "valueRequired": False, "valueOptional": False, "multi": False,
            "required": False, "optional": False, "longPref": False, "shortPref": False}
-NORES = {"k": "n/a", "neg": False, "digits": [], "v": False, "chars": [], "num": 0, "den": 1}
+NORES = {"k": "n/a", "neg": False, "digits": [], "v": False, "chars": [], "num": 0, "den": 1, "special": []}
 TYPEBIT_OPT = {"str": 128, "bool": 256, "int": 512, "float": 1024}
 TYPEBIT_ARG = {"str": 16, "bool": 32, "int": 64, "float": 128}
 
@@ -47,7 +47,8 @@ def observe_ctor(kind, flags, has_short, dflt):
 
     ev = base_event("ctor")
     ev.update(kind=kind, flags=flags, hasShort=has_short, dflt=dflt)
-    default = {"none": None, "scalar": "x", "list": ["x"], "falsy": _FALSY[(flags + has_short) % len(_FALSY)], "emptylist": []}[dflt]
+    default = {"none": None, "scalar": "x", "list": ["x"], "falsy": _FALSY[(flags + has_short) % len(_FALSY)], "emptylist": [],
+               "tuple": ("x",) if flags % 2 else ()}[dflt]
     short = "o" if has_short else None
     # the sibling class sees the same flag word first (its rules differ; whatever it decides must not reach this construction)
     try:
@@ -113,6 +114,7 @@ def project_result(v):
         r.update(k="int", neg=v < 0, digits=list(str(abs(v))))
     elif isinstance(v, float):
         r["k"] = "float"
+        r["special"] = list("nan" if v != v else "inf" if v == float("inf") else "-inf" if v == -float("inf") else "")
         if v == v and abs(v) != float("inf"):
             n, d = v.as_integer_ratio()
             if abs(n) < 2 ** 30 and d < 2 ** 30:
@@ -164,7 +166,8 @@ def run(ctx):
     ctx.rule = (
         "TLC enumerates every flag word (2^13 option / 2^11 argument / 2^3 command-option) x short-name presence x default "
         "kind through the constructor step machine, every name up to length 4 over {a,Z,1,-,_,SP} x dash prefix x role, and a "
-        "pool of conversion texts x type x nullable; each is replayed on Option/CommandOption/Argument; non-trivial = the "
+        "pool of conversion texts x type x nullable; each is replayed on Option/CommandOption/Argument (the sibling class sees the "
+        "flag word first; the default of every accepted object is withdrawn and given again); non-trivial = the "
         "flag word has >= 2 defined bits set, or the name/text is non-empty; random ints/dyadic floats/long names validated by "
         "ElementsTrace"
     )
@@ -186,7 +189,7 @@ def run(ctx):
 
     r = ctx.model(SPEC, "MC_Elements", "MC_Elements.cfg", name="constructors-exhaustive")
     recs = T.emitted(r)
-    if len(recs) < 50000:
+    if len(recs) < 60000:
         raise T.MachineryError("constructor model emitted %d" % len(recs))
     for m in recs:
         ev = observe_ctor(m["kind"], m["flags"], m["hasShort"], m["dflt"])
@@ -223,8 +226,10 @@ def run(ctx):
         text = "".join(m["text"])
         for via in ("opt", "arg"):
             ev = observe_conv(m["type"], m["nullable"], m["isNone"], text, via)
+            special_ok = not (m["type"] == "float" and not m["isNone"] and text in ("inf", "-inf", "nan")) or \
+                ev["obs"]["res"]["special"] == list(text)   # otherwise decided by ElementsTrace (P.conv.float_special)
             keep(ev, {"part": "conv", "type": m["type"], "nullable": m["nullable"], "isNone": m["isNone"], "text": text, "via": via},
-                 same_conv(m["res"], ev["obs"]["res"]))
+                 same_conv(m["res"], ev["obs"]["res"]) and special_ok)
         if text:
             ctx.nontriv(("v", m["type"], m["nullable"], text))
     ctx.sample({"conv": recs[len(recs) // 2]})
